@@ -239,6 +239,35 @@ def hist_events(s, st):
     return []
 
 
+def wiring_classify(note, st, case):
+    """a deviation of a resource wired by systems/pbkvs/bootstrap (harness wiring mode) -> (signature, text)"""
+    parts = note.split(":")
+    if parts[0] == "primary":
+        kv = dict(p.split("=", 1) for p in parts[1:] if "=" in p)
+        dead1 = lab(st["_raw"].get("loc:1", {}).get("pc", "")) in ("failLabel", "Done", "")
+        if kv.get("deployed") == "1" and kv.get("spec") not in (None, "1") and dead1:
+            return ("deploy:leader-election-constant-1:no-failover",
+                    "the deployed leader election (leaderelection.go) still names replica 1 primary after it crashed; the spec's mapping gives %s" % kv.get("spec"))
+        return ("wiring:primary:deployed-differs-from-spec", "the leader-election resource wired by bootstrap answered %s, the spec's LeaderElection mapping gives %s (%s)"
+                % (kv.get("deployed"), kv.get("spec"), note))
+    if parts[0] == "fs":
+        if "foreign-index" in note or "panic" in note:
+            return ("wiring:fs:wrong-index", "the fs resource wired by bootstrap was used with / failed on an index that is not the replica's own: " + note)
+        return ("wiring:fs:read-is-not-own-last-write", "a replica read from its fs resource a value other than the last one it committed for that key "
+                "(fs must be per replica and per key): " + note)
+    return ("wiring:other", note)
+
+
+def probe_kind(d):
+    if d.startswith("netLen"):
+        return "wrong-mailbox-length"
+    if d.startswith("net"):
+        return "message-not-at-the-addressed-mailbox"
+    if d.startswith("fd"):
+        return "failure-detector-watches-the-wrong-replica"
+    return "other"
+
+
 def consistency_ok(case, st):
     """ConsistencyOK of pbkvs.tla evaluated on the observed Go spec state; returns None or a description"""
     raw = st["_raw"]
@@ -423,8 +452,13 @@ def failover_scenario(P):
         run(X, "clientLoop", 1, 2)
     run(X, "rcvResp", 1, 3)
     run(1, "sndReplicaReqLoop", 1, 3)
-    step(1)                                   # idx = self
-    if P["mode"] == "snd":
+    if P["mode"] == "snd" and P["j"] == 1:
+        step(1, fail=1)                       # crashes at the attempt that skips idx = self: the Put reached nobody (lost)
+    else:
+        step(1)                               # idx = self
+    if P["mode"] == "snd" and P["j"] == 1:
+        pass
+    elif P["mode"] == "snd":
         j = P["j"]
         for b in range(2, j):
             step(1)
@@ -480,7 +514,7 @@ def failover_case(rng, tier):
     keys = rng.sample(["KEY1", "k2"], 2)
     P = {"nr": nr, "nc": nc, "keys": keys, "pre": rng.random() < 0.4, "pre_key": rng.choice(keys),
          "follow": rng.choice(["get", "get", "get", "put_other", "put_other", "put_same"]),
-         "mode": rng.choice(["snd", "snd", "rcv"]), "j": rng.randint(2, nr), "interleave": rng.random() < 0.5,
+         "mode": rng.choice(["snd", "snd", "rcv"]), "j": rng.choice([1] + list(range(2, nr + 1)) * 3), "interleave": rng.random() < 0.5,
          "acks": rng.randint(0, nr - 2), "y": rng.randint(nr + 2, nr + nc), "fast": rng.random() < 0.6}
     P["depth"] = {b: rng.choice([0, 1, 2, 3, 4, 4, 4, 4, 4] if b == 2 else [0, 0, 1, 2, 4, 4]) for b in range(2, nr + 1)}
     order = list(range(2, nr + 1)); rng.shuffle(order)
@@ -524,6 +558,10 @@ def failover_grid():
                         if d == 0:
                             P["depth"] = {"2": 4}   # only the future primary has applied and acknowledged
                     out.append(P)
+    # the primary crashes before it sent the Put to anybody: the Put is lost, the new primary must not know it
+    for nr in (3, 4):
+        out.append({"nr": nr, "nc": 2, "follow": "get", "mode": "snd", "j": 1, "fast": True, "pre": nr == 4,
+                    "walk": {"seed": 1000 + len(out), "n": 80, "frozen_n": 40}})
     # double failover (4 replicas): the third leader learned the latest Put only through a SYNC_REQ
     for j2 in (3, 4):
         for follow in ("get", "put_other"):
@@ -556,7 +594,7 @@ def corpus():
 
 
 def explicit(case, res):
-    c = {k: v for k, v in case.items() if k in ("nr", "nc", "ef", "input")}
+    c = {k: v for k, v in case.items() if k in ("nr", "nc", "ef", "input", "wiring")}
     c["steps"] = [[s["p"], s["alt"], s["fail"]] for s in res["steps"]]
     return c
 
@@ -580,6 +618,10 @@ def analyse(case, res, ctx, stats):
         stats["steps"] += 1
         stats["labels"][(s["label"], s["out"])] = stats["labels"].get((s["label"], s["out"]), 0) + 1
         apply_raw(st, s["d"])
+        for n in s.get("wiring", []):
+            sig, what = wiring_classify(n, st, case)
+            if not any(f[0] == sig for f in fails):
+                fails.append((sig, "wiring mode, step %d (%s of process %d): %s" % (i + 1, s["label"], s["p"], what)))
         for h in hist_events(s, st):
             hist.append(h)
             if h[0] == "inv":
@@ -638,9 +680,27 @@ def run(ctx):
             cases.append(gen_case(rng, ctx.tier))
         for i in range(12 if ctx.tier == "quick" else 150):
             cases.append(failover_case(rng, ctx.tier))
+    if not ctx.replay:
+        # deployment wiring mode (fs and primary are the resources systems/pbkvs/bootstrap wires): every corpus scenario
+        # a second time, and every third random walk
+        dup = [dict(c, wiring=True) for j, c in enumerate(cases) if c.get("_corpus") or j % 3 == 0]
+        cases.extend(dup)
+        # wiring probe: index mapping of net / netLen / fd as wired by bootstrap, over loopback TCP
+        cases.append({"probe": True, "nr": 3, "nc": 2, "alive": [1, 3]})
+        cases.append({"probe": True, "nr": 4, "nc": 1, "alive": [2]})
     for i, c in enumerate(cases):
         c["id"] = i
-    rc, res, err = vlib.run_jsonl("c14", [{k: v for k, v in c.items() if not k.startswith("_")} for c in cases], timeout=1500)
+    strip = lambda c: {k: v for k, v in c.items() if not k.startswith("_")}
+    plain = [c for c in cases if not (c.get("wiring") or c.get("probe"))]
+    iso = [c for c in cases if c.get("wiring") or c.get("probe")]
+    rc, res, err = vlib.run_jsonl("c14", [strip(c) for c in plain], timeout=1500) if plain else (0, [], "")
+    # wiring-mode cases run in a process of their own: a resource that the bootstrap package (wrongly) keeps in a
+    # package-level variable must not leak from one case into the next, so that every replay reproduces on its own
+    with concurrent.futures.ThreadPoolExecutor(max_workers=4) as ex:
+        for rc1, res1, err1 in ex.map(lambda c: vlib.run_jsonl("c14", [strip(c)], timeout=600), iso):
+            rc = rc or rc1
+            res.extend(res1)
+            err += err1[-500:] if rc1 else ""
     byid = {r["id"]: r for r in res}
     if rc != 0 or len(byid) != len(cases):
         ctx.breaks.append({"what": "harness c14 failed (rc=%d, %d/%d results)" % (rc, len(byid), len(cases)), "detail": err[-2000:]})
@@ -652,6 +712,18 @@ def run(ctx):
         if r.get("err"):
             ctx.breaks.append({"what": "harness c14 could not run a case: " + r["err"][:300], "case": {k: v for k, v in c.items() if not k.startswith("_")}})
             continue
+        if c.get("probe"):
+            pc = {k: v for k, v in c.items() if k != "id"}
+            ctx.add_case(json.dumps(pc, sort_keys=True), True)
+            stats["probe_checks"] = stats.get("probe_checks", 0) + r.get("checked", 0)
+            seen = set()
+            for d in r.get("probe", []):
+                sig = "wiring:%s:%s" % (d.split(":")[0], probe_kind(d))
+                if sig not in seen:
+                    seen.add(sig)
+                    ctx.failures.append({"signature": sig, "what": "wiring probe (resources wired by systems/pbkvs/bootstrap over loopback TCP): " + d,
+                                         "case": pc, "obs": {"deviations": r.get("probe", [])[:20]}})
+            continue
         ex = explicit(c, r)
         nontriv, fails, hist = analyse(c, r, ctx, stats)
         ctx.add_case(json.dumps(ex, sort_keys=True), nontriv)
@@ -662,6 +734,8 @@ def run(ctx):
             ctx.samples.append({"config": {k: c[k] for k in ("nr", "nc", "ef")}, "input": c["input"],
                                 "first_steps": [[s["p"], s["label"], s["alt"], s["fail"], s["out"], s["pc"]] for s in r["steps"][:10]],
                                 "n_steps": len(r["steps"]), "history": hist[:8]})
+        if c.get("wiring") and c.get("_family") and c.get("_corpus") and c["id"] % 6 != 0:
+            continue    # wiring-mode rerun of a grid member: implementation-side oracles only (its plain run is compared with the model)
         try:
             coq_texts.append((c, r, ex, case_to_coq(c, r, c["id"])))
         except Untranslatable as e:
@@ -672,7 +746,9 @@ def run(ctx):
         "completed_operations": stats["ops_completed"],
         "by_replicas": {str(k): sum(1 for c in cases if c["nr"] == k) for k in (1, 2, 3, 4)},
         "by_clients": {str(k): sum(1 for c in cases if c["nc"] == k) for k in (1, 2, 3)},
-        "by_distinct_keys": {str(k): sum(1 for c in cases if len(set(m["key"] for m in c["input"])) == k) for k in (1, 2, 3)},
+        "by_distinct_keys": {str(k): sum(1 for c in cases if len(set(m["key"] for m in c.get("input", []))) == k) for k in (1, 2, 3)},
+        "wiring_probe_checks": stats.get("probe_checks", 0),
+        "wiring_mode": sum(1 for c in cases if c.get("wiring")),
         "failover_family": {"grid": sum(1 for c in cases if c.get("_family") and c.get("_corpus")),
                             "random": sum(1 for c in cases if c.get("_family") and not c.get("_corpus"))},
         "label_outcomes": {"%s/%s" % k: v for k, v in sorted(stats["labels"].items())}}
